@@ -360,7 +360,7 @@ func (P) Generate(g *hx.Gen) {
 		ops := []string{"case", "init"}
 		for i := 0; i < 4+g.Rng.Intn(10); i++ {
 			switch r := g.Rng.Intn(12); {
-			case r == 0:
+			case r == 0 || (r == 4 && i > 2):
 				ops = append(ops, "reset")
 				g.Count("op:reset")
 			case r == 1 || r == 2:
@@ -376,10 +376,10 @@ func (P) Generate(g *hx.Gen) {
 		g.Case("reset-updatekey", ops, true)
 	}
 	// damaged key files: LoadOrGenFilePV in child processes (cmn.Exit sleeps 2.3 s: few cases)
-	for k := 0; k < g.Pick(1, 4); k++ {
+	for k := 0; k < g.Pick(2, 5); k++ {
 		ops := []string{"case", "init"}
-		if k != 1 {
-			ops = append(ops, mkReq(hrs{uint64(3 + k), 1, 2 + k%2}, 1, 100, "c").line())
+		if k != 1 { // k == 1: a validator that has not signed anything yet
+			ops = append(ops, mkReq(hrs{uint64(3 + k), 1, 1 + k%3}, 1, 100, "c").line())
 		}
 		ops = append(ops, "loadbad")
 		g.Count("op:loadbad")
